@@ -723,11 +723,18 @@ class _Expander:
                     if a.attr in props and isinstance(a.ctx, ast.Load):
                         if getattr(helpers[a.attr], "scoped", False) and not exp_._scoped_ok(helpers[a.attr], a):
                             return a
+                        if isinstance(a.value, ast.Name) and a.value.id in exp_._imported:
+                            return a   # `module.name`: a module attribute that happens to share the property's name
                         c = ast.copy_location(ast.Call(func=a, args=[], keywords=[]), a)
                         synthetic.append(c)
                         return c
                     return a
             for rel, tree in self.trees.items():
+                self._imported = set()
+                for st in tree.body:
+                    if isinstance(st, (ast.Import, ast.ImportFrom)):
+                        for al in st.names:
+                            self._imported.add((al.asname or al.name).split(".")[0])
                 for parts, fn in alpha.walk_functions(tree):
                     if fn.name in props:
                         continue
